@@ -105,6 +105,14 @@ func checkC08(P *Prog, r *Result) {
 		})
 	}
 	r.floor("C08/single-owner", 4)
+	// no package-level object of a per-call pooled type (an issue shared by every execution that receives it)
+	tmpG := NewResult(r.Prop, r.Tier)
+	P.checkNoGlobalPooledObject(tmpG)
+	for _, o := range tmpG.Obls {
+		o.Rule = "C08/no-global-pooled-object"
+		r.Obls = append(r.Obls, o)
+		r.Instances[o.Rule]++
+	}
 	P.checkReleaseInto(r, "C08/single-owner-release")
 	P.checkReleaseMultiplicity(r, "C08/single-owner-multiplicity")
 
